@@ -34,12 +34,14 @@ def _worker(args):
     from pyvc.engine import verify
     t0 = time.time()
     try:
-        repo = Repo(REPO)
         mod = importlib.import_module(modname)
         h = mod.HARNESSES[hidx]
-        cases = list(h.cases())
+        repo = Repo(REPO, numpy_mode=getattr(h, "numpy_mode", "real"))
+        import copy
+        cases = list(type(h).cases(h))
         if case_idx is not None:
             one = cases[case_idx]
+            h = copy.copy(h)          # worker processes are reused: never mutate the module-level harness
             h.cases = lambda: [one]
         obs, stats = verify(h, repo, tier)
         fn = []
